@@ -22,7 +22,7 @@ import (
 func main() {
 	_ = logger.SetLogLevel("*:NONE")
 	r := vk.Start("C16")
-	r.Rule("histories of 3-6 consecutive epoch changes on coordinators with 1-3 shards + metachain, group sizes 1-4, eligible 1x-3x group size, waiting 0-4, intra- or cross-shard shuffling, waiting-list fix activating before/at/after the history's epochs, plain or rater variant (ratings below the minimum chance give additional leaving); per change a leaving rate of 0/5/15/40/80 %, 0-4 new keys, inactive/jailed records; a transition is non-trivial when the new epoch was installed; distinct = distinct (shards, fix active, cross, rater, #leaving records, #new, #validators that changed shard, step)")
+	r.Rule("histories of 3-6 consecutive epoch changes on coordinators with 1-3 shards + metachain, group sizes 1-4, eligible 1x-3x group size, waiting 0-4, intra- or cross-shard shuffling, waiting-list fix activating before/at/after the history's epochs, plain or rater variant (ratings below the minimum chance give additional leaving); a quarter of the histories over a boot storer whose Put fails (during one epoch change of the history, or at random); per change a leaving rate of 0/5/15/40/80 %, 0-4 new keys, inactive/jailed records; a transition is non-trivial when the new epoch was installed; distinct = distinct (shards, fix active, cross, rater, #leaving records, #new, #validators that changed shard, step)")
 	r.Assume("validator-info records are consistent with the previous configuration: a listed validator is reported with the shard it is listed in, as eligible/waiting or leaving; keys are never reported twice in one body", "an epoch change that the coordinator refuses (shuffler error or a shard below the group size) ends the history and is counted, not judged")
 	r.MinShapes(100)
 	n := r.N(2000, 60000)
@@ -30,12 +30,31 @@ func main() {
 	r.Parallel(n, func(c *vk.Case) {
 		rng := c.Rng
 		spec := sg.GenCoord(rng, sg.CoordOpts{MaxShards: 3, MaxCons: 4, MaxEpoch: 2, EpochsAhead: 5})
-		co, err := spec.Build(rng.Fork(), &mock.NodesCoordinatorCacheMock{})
+		// a quarter of the histories run over a boot storer whose Put fails: during one chosen epoch change
+		// (Prepare and Action), or at random with probability 1/2 per Put. The coordinator only logs a failed
+		// save; all oracles stay in force for every epoch, including the one whose save failed.
+		faultMode, faultStep, failNow := "none", 0, false
+		faulty := &sg.FaultyStorer{Storer: sg.NewBootStorer()}
+		if rng.Chance(1, 4) {
+			faultMode = "one-epoch"
+			if rng.Chance(1, 3) {
+				faultMode = "random"
+				frng := rng.Fork()
+				faulty.Fail = func() bool { return frng.Bool() }
+			} else {
+				faulty.Fail = func() bool { return failNow }
+			}
+			r.Count("histories_with_save_faults_"+faultMode, 1)
+		}
+		co, err := spec.BuildWith(rng.Fork(), &mock.NodesCoordinatorCacheMock{}, faulty)
 		if err != nil {
 			r.Violation(c.Idx, "constructor-error", err.Error(), map[string]interface{}{"spec": spec.Dump()})
 			return
 		}
 		steps := 3 + rng.Intn(4)
+		if faultMode == "one-epoch" {
+			faultStep = 1 + rng.Intn(steps)
+		}
 		epoch := spec.StartEpoch
 		prev, err := sg.ReadConfig(co, epoch)
 		if err != nil {
@@ -64,13 +83,21 @@ func main() {
 				}
 			}
 
+			failNow = step == faultStep
+			failedBefore := faulty.Failed
+			class := func() string {
+				if faulty.Failed > failedBefore {
+					return " class=after-save-fault"
+				}
+				return ""
+			}
 			check := func(when string) (*sg.Config, bool) {
 				cfg, err := sg.ReadConfig(co, newEpoch)
 				if err != nil {
 					return nil, false
 				}
 				detail := func() map[string]interface{} {
-					return map[string]interface{}{"spec": spec.Dump(), "history": history, "when": when, "previousConfig": prev.Dump(), "newConfig": cfg.Dump()}
+					return map[string]interface{}{"spec": spec.Dump(), "history": history, "when": when, "previousConfig": prev.Dump(), "newConfig": cfg.Dump(), "saveFaults": faultMode, "bootStorerPutsRefusedDuringThisChange": faulty.Failed - failedBefore}
 				}
 				place := map[string]string{}
 				shardOf := map[string]uint32{}
@@ -109,12 +136,12 @@ func main() {
 					_, sh, err := co.GetValidatorWithPublicKey([]byte(k))
 					r.Eval(1)
 					if err != nil {
-						r.Violation(c.Idx, "lookup-fails", fmt.Sprintf("epoch %d (%s): key %x is in %s but GetValidatorWithPublicKey: %v", newEpoch, when, k, place[k], err), detail())
+						r.Violation(c.Idx, "lookup-fails"+class(), fmt.Sprintf("epoch %d (%s): key %x is in %s but GetValidatorWithPublicKey: %v", newEpoch, when, k, place[k], err), detail())
 						bad = true
 						break
 					}
 					if sh != shardOf[k] {
-						r.Violation(c.Idx, "lookup-reports-other-shard", fmt.Sprintf("epoch %d (%s): key %x is in %s but GetValidatorWithPublicKey reports shard %s", newEpoch, when, k, place[k], sg.ShardName(sh)), detail())
+						r.Violation(c.Idx, "lookup-reports-other-shard"+class(), fmt.Sprintf("epoch %d (%s): key %x is in %s but GetValidatorWithPublicKey reports shard %s", newEpoch, when, k, place[k], sg.ShardName(sh)), detail())
 						bad = true
 						break
 					}
@@ -180,6 +207,11 @@ func main() {
 			fix := newEpoch >= spec.FixEpoch
 			r.Shape(fmt.Sprintf("n%d fix%v x%v rater%v lv%d new%d moved%d step%d", spec.NbShards, fix, spec.Cross, spec.Rater, nLeaving, nNew, moved, step))
 			r.Count("epoch_changes_installed", 1)
+			if n := faulty.Failed - failedBefore; n > 0 {
+				r.Count("epoch_changes_with_refused_saves", 1)
+				r.Count("boot_storer_puts_refused", n)
+				r.Count("validators_that_changed_shard_in_a_change_with_refused_saves", moved)
+			}
 			r.Count("validators_that_changed_shard", moved)
 			r.Count("validators_that_left", left)
 			r.Count("leaving_records", nLeaving)
